@@ -142,6 +142,28 @@ pub mod lock {
         }
     }
 
+    /// `l.read().expect(msg)`: a poisoned lock makes the caller panic, as without the flag.
+    #[track_caller]
+    pub fn read_expect<'a>(l: &'a RwLock<()>, msg: &str) -> Read<'a> {
+        let g = read(l);
+        if l.is_poisoned() {
+            drop(g);
+            panic!("{}: PoisonError {{ .. }}", msg);
+        }
+        g
+    }
+
+    /// `l.write().expect(msg)`: a poisoned lock makes the caller panic, as without the flag.
+    #[track_caller]
+    pub fn write_expect<'a>(l: &'a RwLock<()>, msg: &str) -> Write<'a> {
+        let g = write(l);
+        if l.is_poisoned() {
+            drop(g);
+            panic!("{}: PoisonError {{ .. }}", msg);
+        }
+        g
+    }
+
     #[track_caller]
     pub fn write(l: &RwLock<()>) -> Write<'_> {
         let e = ev(Op::LockWrite, l);
